@@ -26,18 +26,18 @@ CLAIMED = {
             "Theorem C12_confined holds for every mailbox path and every MID byte string: each path touched by ProcessInbound, GetInboundAnswer, SetSent, SetDeferred and AddOut cleans to the mailbox's segments followed by plain segments; the model (fileName validation added by a fix: commit, path.Join, the DIR_* constants regenerated from source) is compared with the files the real DirHandler touches inside a sandbox tree.",
             "Paths are lexical: symbolic links inside the mailbox and the operating system's own name resolution are outside the model; path.Clean/Join are modelled (validated by correspondence), the file system is observed by recursive snapshots.",
             "DESIGN.md section 6 C12"),
-    "C06": ("Coq proof of the chunking and stream-layout laws for all inputs + bit-exact correspondence of the Gallina transcription of Writer/Reader with the Go code and a round-trip oracle",
-            "PARTIAL proof: C06_write_chunking (bytes independent of the Write partition) and C06_layout hold for every input; the round-trip statement itself (C06_roundtrip_statement) is not yet a theorem and is decided per run by running the faithful model (search tree, adaptive Huffman tree with rebuild, bit output, reader with every Read call replayed) against the implementation on exhaustive short strings, window-boundary shapes, long inputs and the 17-bit-code witness, with decode(encode x) = x checked on both.",
-            "The unbounded round-trip claim rests on correspondence plus oracle, not on a theorem (proof plan in DESIGN.md section 6 C06); Go slices/bufio/bytes.Buffer modelled.",
-            "DESIGN.md section 6 C06"),
-    "C07": ("Coq proof that tables, constants, CRC and header are the canonical ones for all inputs (finite sweeps by vm_compute lifted to forall; CRC by induction) + cross-decoding against an independent Gallina LZHUF checked on the golden files",
-            "Theorems C07_constants/C07_tables_*/C07_crc/C07_crc_table/C07_header hold for every input: the regenerated tables equal the canonical prefix code, the table-driven zero-augmented CRC equals bitwise CRC-16/XMODEM for every byte string, every stream carries the canonical B2 header. PARTIAL: the two cross-decoding statements are Props decided per run: library streams decoded by the independent Canon codec (extracted from Coq) and Canon streams read by the library, both header modes; Canon.compress must reproduce lzhuf/testdata/*.lzh byte for byte.",
-            "That Canon is the canonical codec rests on its being transcribed from the published algorithm with its own constants and on the golden files; cross-decoding is correspondence, not theorem.",
-            "DESIGN.md section 6 C07"),
-    "C08": ("Coq proof of the output bound, constructor rejections and Close verdict for all streams, chunkings and Read size sequences + correspondence on mutated streams under a watchdog with a canonical-decoder verdict oracle",
-            "Theorems C08_bounded (never more bytes than the declared size over any Read sequence), C08_constructor_short/negative, C08_read_accounting and C08_close_certifies hold for every byte stream. PARTIAL: termination and freedom from index errors (C08_terminates_statement) and 'Close nil implies canonical decoding' (C08_verdict_statement) are Props decided per run: every truncation and bit flip of valid streams, header edits and splices are read by the implementation under a watchdog and read-count bound, every Read replayed in the model, and each nil Close is checked against the independent Canon decoder.",
-            "bufio (4096-byte fills), io.TeeReader and bytes.Buffer modelled; termination/no-panic rely on the adaptive-Huffman invariant that is checked by correspondence, not yet proved.",
-            "DESIGN.md section 6 C08"),
+    "C06": ("Coq proof of the full statement for all inputs (layered: adaptive Huffman invariant, bit layers, search-tree registry, writer -> tokens, tokens -> reader) + bit-exact correspondence of the Gallina transcription of Writer/Reader with the Go code and a round-trip oracle",
+            "Theorems C06_lossless (any partition into Write calls, any sequence of positive Read buffer sizes, with and without the CRC header: the bytes read are the input, io.EOF, nil Close), C06_roundtrip, C06_write_chunking, C06_layout, C06_format, C06_tree_invariant, C06_codes, C06_search_trees hold for every byte string shorter than 2^31, on the Gallina transcription of writer.go/reader.go/lzhuf.go/bit_reader.go (no axioms). The transcription is tied to /repo on every run: constants and tables are regenerated from the source, and the extracted model is run against the implementation byte for byte on exhaustive short strings, window-boundary shapes, long inputs (tree rebuild) and the 17-bit-code witness, every Write and Read call replayed.",
+            "The theorem is about the model; Go slices, bufio (4096-byte fills), bytes.Buffer and uint64/uint8 wrap-around are modelled (the wraps explicitly); the source is a single chunk in the theorem (other chunkings are exercised by the harness).",
+            "DESIGN.md section 6 C06 and section 11.10"),
+    "C07": ("Coq proof that tables, constants, CRC, header and the token format are the canonical ones, that the independent Gallina reference decodes every stream of the compressor, and that reference and library share the adaptive tree + cross-decoding against the reference checked on the golden files",
+            "Theorems for every input: C07_constants/C07_tables_*/C07_crc/C07_crc_table/C07_header (regenerated tables = canonical prefix code; table-driven CRC = bitwise CRC-16/XMODEM; canonical B2 header), C07_same_tree (one update of the reference = one update of the library on every tree satisfying the invariant), C07_reference_crc, C07_reference_decodes_format and C07_library_decodes_format (both decoders decode every well-formed token stream, whoever produced it, to its expansion), C07_lib_to_reference (the reference decodes compress(x) to x for all x). PARTIAL: the direction reference-encoder -> library is reduced by C07_library_decodes_format to the statement that the reference encoder emits the format; that statement about the reference is a Prop decided per run (Canon streams read by the library, both header modes; Canon.compress must reproduce lzhuf/testdata/*.lzh byte for byte).",
+            "Canon.v is our transcription of LZHUF.C and part of the trusted base of this property (pinned by the golden files); 'canonical format' means the token layer of Lzhuf/Tokens.v.",
+            "DESIGN.md section 6 C07 and section 11.10"),
+    "C08": ("Coq proof of termination, output bound, index safety, constructor rejections and the Close verdict for all streams, chunkings and Read size sequences + correspondence on mutated streams under a watchdog with a canonical-decoder verdict oracle",
+            "Theorems for every byte stream: C08_terminates (reading to the end, any source chunking, any positive buffer size, ends with io.EOF or an error within 60*(8*len+8)+2 Read calls), C08_read_productive, C08_tree_invariant and C08_symbol_in_range (every reachable tree satisfies the adaptive Huffman invariant, so decoded symbols and all array indices are in range), C08_bounded (never more bytes than the declared size), C08_constructor_short/negative, C08_read_accounting, C08_close_certifies (CRC and size), C08_verdict (io.EOF + nil Close imply that the bytes read are the expansion of the token sequence the body starts with, in the declared number). Per run: every truncation and bit flip of valid streams, header edits and splices are read by the implementation under a watchdog and read-count bound, every Read replayed in the model, and each nil Close is checked against the independent reference decoder.",
+            "bufio (4096-byte fills, 100 empty reads), io.TeeReader and bytes.Buffer are modelled; memory safety of the Go runtime itself is outside the model; the theorems are about the transcription, tied to the code by the per-run correspondence.",
+            "DESIGN.md section 6 C08 and section 11.10"),
     "C09": ("Coq proof of the section framing for all contents (body/attachments of arbitrary bytes read back exactly; short and negative sizes refused) + correspondence of Bytes()/ReadFrom with the model on API-built and mutated messages",
             "Theorems C09_sections/C09_files/C09_section_*/C09_layout hold for every body and every list of attachments of arbitrary bytes. PARTIAL: the header block (net/textproto.ReadMIMEHeader, modelled) and the full statement C09_roundtrip_statement are decided per run: API-built messages (all address forms, Latin-1 subjects and file names, any minute, 0..4 attachments, X- headers) are serialised and parsed by code and model through whole, 1-byte and random-chunk readers, with parse(serialise m) = m, canonical re-serialisation and the accessors checked on the implementation.",
             "mime.QEncoding/WordDecoder, go-charset, time.Parse (beyond the four Winlink layouts) and textproto are library code: modelled or passed through; the known finding 'subject with outer white space is trimmed' is reported as KNOWN-FINDING.",
@@ -52,7 +52,7 @@ CLAIMED = {
             "DESIGN.md section 6 C02"),
     "C03": ("Coq proof that the model of Exchange never reaches a panic and never runs out of fuel (the session loop ends) for any configuration and any received bytes + real sessions on mutated transcripts, damaged payloads and arbitrary bytes under watchdog, allocation limit and address-space limit",
             "Theorems C03_no_panic, C03_terminates and C03_result hold for every configuration and every byte sequence: each index/slice of the Go code on remote data is a checked operation of the model and is shown unreachable out of range (after seven fix: commits); every inbound turn consumes at least one line of input and no step lengthens what is left to read, so the turn loop ends with nil, connection-lost or an error. The model is tied to fbb by correspondence of the wire bytes, handler callbacks and result on every generated transcript.",
-            "The LZHUF reader inside Proposal.Message has its own bound in the model (C08's open termination statement); the model stands for the code through the correspondence; bufio/fmt/strconv/strings/regexp semantics are modelled (UTF-8 rune sums, Unicode TrimSpace, the SID regular expression included); memory use is observed, not proved.",
+            "The LZHUF reader inside Proposal.Message has its own bound in the model (termination of the reader itself is C08_terminates); the model stands for the code through the correspondence; bufio/fmt/strconv/strings/regexp semantics are modelled (UTF-8 rune sums, Unicode TrimSpace, the SID regular expression included); memory use is observed, not proved.",
             "DESIGN.md section 6 C03 and section 11"),
     "C04": ("Coq proof that every message handed to the inbound handler passed the frame checks, the LZHUF Close (CRC-16, size) and the message parser, for all inputs + every single-byte alteration of the SOH..EOT range replayed on real receiver and sender",
             "Theorems C04_integrity/C04_payload/C04_frames/C04_unaltered_accepted hold for every configuration and every received byte sequence. The per-run check alters each transfer at every offset (substitution, deletion, insertion, checksum-compensating pairs), feeds it to a real slave session and the slave's answers to a real master: a delivered message must be byte-identical to the queued one and the sender may record it sent only if it was delivered; the receiver is compared with the model on the same bytes.",
